@@ -463,7 +463,43 @@ _C20b = [
     M(["C20"], "emptyfill-com-homogeneous", FO, "compute_contact_force", "com[3] = 1.0", "", ["R-EMPTYFILL", "compute_contact_force"]),
     M(["C20"], "emptyfill-triangles", FO, "tesselate_ordered_polygon", "triangles[:, 0] = 0", "", ["R-EMPTYFILL", "tesselate_ordered_polygon"]),
 ]
-_ALL = _C20b + _C10 + _C11 + _C06 + _C05 + _C07 + _C14 + _C15 + _C16 + _C19 + _C20 + _C01 + _C18 + _C09 + _C08 + _C03 + _C04 + _C12 + _C13 + _C16b
+
+JO = "distance3d/gjk/_gjk_jolt.py"
+ME = "distance3d/mesh.py"
+LBX = "distance3d/distance/_line_to_box.py"
+RB = "distance3d/hydroelastic_contact/_rigid_body.py"
+MP = "distance3d/mpr.py"
+_SEEDLIKE = [
+    M(["C01"], "clip-sign-guard-dropped", JO, "_distance_loop", "dot < 0.0 and dot * dot > v_len_sq * max_distance_squared", "dot * dot > v_len_sq * max_distance_squared", ["R-CLIPGUARD", "guarded by s < 0"]),
+    M(["C01"], "clip-sign-guard-flipped", JO, "_distance_loop", "dot < 0.0", "dot > 0.0", ["R-CLIPGUARD", "guarded by s < 0"]),
+    M(["C01"], "clip-or", JO, "_distance_loop", "dot < 0.0 and dot * dot > v_len_sq * max_distance_squared", "dot < 0.0 or dot * dot > v_len_sq * max_distance_squared", ["R-CLIPGUARD"]),
+    M(["C01"], "clip-bound-inverted", JO, "_distance_loop", "dot * dot > v_len_sq * max_distance_squared", "dot * dot < v_len_sq * max_distance_squared", ["R-CLIPGUARD", "compares s^2"]),
+    M(["C01"], "clip-not-projection", JO, "_distance_loop", "dot = search_direction.dot(support_point)", "dot = -np.linalg.norm(support_point)", ["R-CLIPGUARD", "s is dir.w"]),
+    M(["C03", "C14"], "mesh-support-answers-from-cache", ME, "MeshHillClimbingSupportFunction.__call__",
+      "idx = hill_climb_mesh_extreme(search_direction_in_mesh, self.first_idx, self.vertices, self.connections, self.shortcut_connections)",
+      "idx = self.first_idx", ["R-QUERYSTATE", "MeshHillClimbingSupportFunction"]),
+    M(["C03", "C14"], "mesh-support-cache-as-direction", ME, "MeshHillClimbingSupportFunction.__call__",
+      "idx = hill_climb_mesh_extreme(search_direction_in_mesh, self.first_idx, self.vertices, self.connections, self.shortcut_connections)",
+      "idx = hill_climb_mesh_extreme(search_direction_in_mesh, 0, self.vertices[self.first_idx:], self.connections, self.shortcut_connections)", ["R-QUERYSTATE", "MeshHillClimbingSupportFunction"]),
+    M(["C14"], "mesh-update-pose-resets-hint", ME, "MeshHillClimbingSupportFunction.update_pose", "self.mesh2origin = mesh2origin", "self.mesh2origin = mesh2origin\nself.first_idx = 0", ["R-COHERENCE", "MeshHillClimbingSupportFunction"]),
+    M(["C10", "C11"], "mirror-one-sided-index", LBX, "_case_0", "inv = 1.0 / direction_in_box[i1]", "inv = 1.0 / direction_in_box[i0]", ["R-MIRROR", "_case_0"]),
+    M(["C10", "C11"], "mirror-one-sided-sign", LBX, "_case_0", "inv = 1.0 / direction_in_box[i0]", "inv = -1.0 / direction_in_box[i0]", ["R-MIRROR", "_case_0"]),
+    M(["C15"], "planecross-de-morgan", TI, "check_tetrahedra_intersect_contact_plane",
+      "min(plane_distances1) < -tolerance and max(plane_distances1) > tolerance and (min(plane_distances2) < -tolerance) and (max(plane_distances2) > tolerance)",
+      "not (min(plane_distances1) >= -tolerance or max(plane_distances1) <= tolerance or (min(plane_distances2) >= -tolerance and max(plane_distances2) <= tolerance))", ["R-PLANECROSS"]),
+    M(["C15"], "planecross-one-sided", TI, "check_tetrahedra_intersect_contact_plane", "max(plane_distances2) > tolerance", "max(plane_distances1) > tolerance", ["R-PLANECROSS"]),
+    M(["C15"], "planecross-wrong-sign", TI, "check_tetrahedra_intersect_contact_plane", "min(plane_distances1) < -tolerance", "min(plane_distances1) < tolerance", ["R-PLANECROSS"]),
+    M(["C16"], "sharedpose-asarray", RB, "RigidBody.express_in", "np.copy(new_body2origin)", "np.asarray(new_body2origin, dtype=float)", ["R-SHAREDPOSE", "express_in"]),
+    M(["C16"], "sharedpose-plain", RB, "RigidBody.express_in", "np.copy(new_body2origin)", "new_body2origin", ["R-SHAREDPOSE", "express_in"]),
+    M(["C19"], "mpr-direction-divided-by-depth", MP, "_find_penetration_info", "return (depth, norm_vector(pdir), pos)", "return (depth, pdir / depth, pos)", ["R-SAFEDIV", "_find_penetration_info"]),
+    M(["C19"], "mpr-direction-not-normalised", MP, "_find_penetration_segment", "norm_vector(penetration_direction)", "penetration_direction / depth", ["R-SAFEDIV", "_find_penetration_segment"]),
+    M(["C08"], "mpr-direction-divided-by-depth-c08", MP, "_find_penetration_info", "return (depth, norm_vector(pdir), pos)", "return (depth, pdir / depth, pos)", ["R-UNITDIR"]),
+    M(["C19"], "norm-vector-no-zero-exit", "distance3d/utils.py", "norm_vector", "if norm == 0.0:\n    return v", "", ["R-SAFEDIV", "norm_vector"]),
+    M(["C19"], "sphere-support-zero-side", "distance3d/geometry.py", "support_function_sphere", "s_norm == 0.0", "s_norm != 0.0", ["R-SAFEDIV", "support_function_sphere"]),
+    M(["C19"], "disk-support-no-zero-exit", "distance3d/geometry.py", "support_function_disk", "if norm == 0.0:\n    return np.copy(center)", "", ["R-SAFEDIV", "support_function_disk"]),
+    M(["C19"], "cone-support-no-guard", "distance3d/geometry.py", "support_function_cone", "norm == 0.0", "False", ["R-SAFEDIV", "support_function_cone"]),
+]
+_ALL = _SEEDLIKE + _C20b + _C10 + _C11 + _C06 + _C05 + _C07 + _C14 + _C15 + _C16 + _C19 + _C20 + _C01 + _C18 + _C09 + _C08 + _C03 + _C04 + _C12 + _C13 + _C16b
 
 FLOORS = {"C05": 40, "C07": 14, "C14": 9, "C15": 8, "C16": 12, "C19": 14, "C20": 10, "C01": 24, "C18": 24, "C09": 24, "C08": 10, "C02": 20, "C03": 18, "C04": 12, "C12": 20, "C13": 10, "C06": 14, "C10": 12, "C11": 8}
 
